@@ -3,6 +3,7 @@ import WM.Lemmas.NormalizeOps
 import WM.Lemmas.NormalizeEstimate
 import WM.Lemmas.NormalizeIdem5
 import WM.Lemmas.NormalizeWitness
+import WM.Lemmas.NormalizeExc
 /-!
 C15 — query rewriting never changes what a query means.
 
@@ -114,6 +115,31 @@ theorem total (q : Q) : ∃ r, normalize q = r ∧ NF r = true := ⟨_, rfl, nor
 example : NF (normalize (.comp .and [.comp .and [] 1, .comp .or [.null] 2] 1)) = true
     ∧ normalize (.comp .and [.comp .and [] 1, .comp .or [.null] 2] 1) = .null := by
   refine ⟨by decide +kernel, by decide +kernel⟩
+
+/-- `normalize()` never raises.  `normalizeE` (lean/WM/Model/NormalizeExc.lean) mirrors the same code in
+    the exception monad with the one statement on its path that can raise kept as a raising site
+    (`assert self.fieldname == other.fieldname` in `RangeMixin.merge`); it returns a query for every
+    tree, the query is `normalize q`, and it has the promised shape. -/
+theorem never_raises (q : Q) : ∃ r, normalizeE q = .ok r ∧ r = normalize q ∧ NF r = true :=
+  ⟨normalize q, normalizeE_eq q, rfl, normalize_NF q⟩
+
+/-- The operators `&`, `|`, `-` never raise either. -/
+theorem ops_never_raise (a b : Q) :
+    opAndE a b = .ok (opAnd a b) ∧ opOrE a b = .ok (opOr a b) ∧ opSubE a b = .ok (opSub a b) :=
+  ⟨normalizeE_eq _, normalizeE_eq _, normalizeE_eq _⟩
+
+/-- The raising site is a real one: `merge` of two ranges on different fields trips the `assert` (what
+    keeps `normalize` from reaching it is `overlaps`, which compares the field names first); and a tree
+    whose ranges sit on two fields and overlap as intervals goes through. -/
+example :
+    let a : Rng := ⟨0, some [97], some [99], false, false, 1, true⟩
+    let b : Rng := ⟨1, some [98], some [100], false, false, 1, true⟩
+    a.mergeE b false = .error .assertion ∧ a.overlaps b = false
+      ∧ normalizeE (.comp .or [a.toQ, b.toQ, (Rng.mk 0 (some [98]) none false false 2 true).toQ] 1)
+        = .ok (.comp .or [.range 0 (some [97]) none false false 2 true, b.toQ] 1) := by
+  refine ⟨by simp [Rng.mergeE], by decide +kernel, ?_⟩
+  rw [normalizeE_eq]
+  exact congrArg Except.ok (by decide +kernel)
 
 /-- `normalize` is idempotent: for every tree (no hypothesis).  Proved through the normal forms
     `WM.Normalize.Normal`: `normalize` produces them and leaves them alone.  (True of the tree with
@@ -254,6 +280,45 @@ example :
   refine ⟨by decide +kernel, by decide +kernel, by decide +kernel, by decide +kernel⟩
 
 
+/-! ### `__eq__` / `__hash__` (what `s in seenqs` of the de-duplication decides)
+
+The model's equality `Q.beq` compares the class and every attribute that takes part in `__eq__` or
+`__hash__` of the real classes.  (`Not.boost` is ignored by `Not.__eq__` but read by `Not.__hash__`: two
+clauses that differ in the boost of one `Not` are kept apart by the Python set as by the model; trees
+that differ in the boosts of several `Not`s can collide in the xor of hashes — the model keeps those
+apart, the meaning is the same either way.)  Tied to the real `q2 in {q1}` on generated near-duplicate
+pairs by the check. -/
+
+/-- Queries the de-duplication treats as equal are the same tree ... -/
+theorem eq_iff (a b : Q) : (a == b) = true ↔ a = b := beq_iff_eq
+
+/-- ... hence match the same documents on every index, before and after every rewrite. -/
+theorem eq_same_meaning (env : Env) (a b : Q) (h : (a == b) = true) :
+    answer env a = answer env b ∧ answer env (normalize a) = answer env (normalize b)
+      ∧ (∀ d, sat env a d = sat env b d) ∧ (normalize a == normalize b) = true := by
+  have e : a = b := eq_of_beq h
+  subst e
+  exact ⟨rfl, rfl, fun _ => rfl, beq_self_eq_true _⟩
+
+/-- "Eliminate duplicate queries" (with no `Every` field recorded) keeps the meaning of the clause
+    list under `Or` and under `And`: a clause is only dropped when an equal one was kept. -/
+theorem dedupe_sat (env : Env) (l : List Q) (d : Doc) :
+    satAny env (dedupe [] [] l) d = satAny env l d ∧ satAll env (dedupe [] [] l) d = satAll env l d := by
+  have h1 := dedupe_or env d [] l [] (by simp)
+  have h2 := dedupe_and env d [] l [] (by simp)
+  simp only [satAny, satAll, Bool.false_or, Bool.true_and] at h1 h2
+  exact ⟨h1, h2⟩
+
+/-- Near-duplicates are kept apart: two `Term`s that differ in the boost only, two ranges that differ
+    in one exclusion flag, two `Not`s that differ in the boost; exact duplicates are dropped. -/
+example :
+    let t : Q := .term 0 [97] 1
+    let r : Q := .range 0 (some [97]) (some [99]) false false 1 true
+    dedupe [] [] [t, .term 0 [97] 2, t, r, .range 0 (some [97]) (some [99]) false true 1 true, r, .not t 1, .not t 2]
+      = [t, .term 0 [97] 2, r, .range 0 (some [97]) (some [99]) false true 1 true, .not t 1, .not t 2]
+      ∧ ((Q.not t 1) == (Q.not t 2)) = false ∧ (t == Q.term 0 [97] 1) = true := by
+  refine ⟨by decide +kernel, by decide +kernel, by decide +kernel⟩
+
 /-! ### `simplify(ixreader)` and `estimate_size(ixreader)` -/
 
 /-- `simplify(reader)` means the same as the query on the index the reader describes (when none of
@@ -285,12 +350,27 @@ example :
       ∧ answer env0 q = [] ∧ answer env0 (simplify env0.multi env0.bracket rd0 q) = [0] := by
   refine ⟨by decide +kernel, by decide +kernel, by decide +kernel, by decide +kernel⟩
 
-/-- `estimate_size` is never below the number of matching documents (whenever Python does not
-    raise, i.e. no empty `And`/`Sequence`/`Phrase` is asked for its `min()`). -/
+/-- `estimate_size` is never below the number of matching (live) documents, on every index with or
+    without deleted documents: `rd.docs` are the live documents (= the index of `env`), `rd.dead` —
+    arbitrary — the deleted ones that `doc_frequency` still counts while `doc_count()` does not. -/
 theorem estimate_ge (env : Env) (rd : Reader) (q : Q) (hdocs : rd.docs = env.index) (hrd : ReaderOk env rd)
     (n : Nat) (h : estimate env.multi env.bracket rd q = some n) : (answer env q).length ≤ n := by
   have := estimate_ge_aux env rd hdocs hrd q n h
   simpa [answer, cnt] using this
+
+/-- `estimate_size` never raises: the one partial operation (`min()` of no subqueries in
+    `And.estimate_size`, reached also from `Phrase`/`Sequence`) is guarded, for every tree without a
+    span query (whose `estimate_size` is not modelled), every reader. -/
+theorem estimate_total (env : Env) (rd : Reader) (q : Q) (h : q.spanFree = true) :
+    ∃ n, estimate env.multi env.bracket rd q = some n :=
+  estimate_total_aux env.multi env.bracket rd q h
+
+/-- Both together: an estimate exists and bounds the answer. -/
+theorem estimate_total_ge (env : Env) (rd : Reader) (q : Q) (hdocs : rd.docs = env.index)
+    (hrd : ReaderOk env rd) (h : q.spanFree = true) :
+    ∃ n, estimate env.multi env.bracket rd q = some n ∧ (answer env q).length ≤ n := by
+  obtain ⟨n, hn⟩ := estimate_total env rd q h
+  exact ⟨n, hn, estimate_ge env rd q hdocs hrd n hn⟩
 
 example :
     estimate env0.multi env0.bracket rd0 (.comp .or [.term 0 [98] 1, .pre 0 [] 1 true] 1) = some 2
@@ -299,5 +379,20 @@ example :
       ∧ estimate env0.multi env0.bracket rd0 (.comp .and [] 1) = some 0
       ∧ (answer env0 (.comp .or [.term 0 [98] 1, .pre 0 [] 1 true] 1)).length = 2 := by
   refine ⟨by decide +kernel, by decide +kernel, by decide +kernel, by decide +kernel, by decide +kernel⟩
+
+/-- With a deleted document `"a b"` still in its segment: `doc_frequency("b")` is 3 although only two
+    live documents hold it; `Every` and `Not` estimate the live count; nested empty compounds and an
+    empty phrase do not raise. -/
+example :
+    let rd : Reader := { rd0 with dead := [doc 2 [[97], [98]]] }
+    rd.docs = env0.index ∧ rd.df 0 [98] = 3 ∧ rd.docCount = 2
+      ∧ estimate env0.multi env0.bracket rd (.term 0 [98] 1) = some 3
+      ∧ estimate env0.multi env0.bracket rd (.comp .or [.term 0 [98] 1, .term 0 [97] 1] 1) = some 2
+      ∧ estimate env0.multi env0.bracket rd (.not (.term 0 [98] 1) 1) = some 2
+      ∧ estimate env0.multi env0.bracket rd (.seq false [.comp .and [] 1, .phrase 0 [] 1 1] 1 true 1) = some 0
+      ∧ (answer env0 (.term 0 [98] 1)).length = 2
+      ∧ (Q.seq false [.comp .and [] 1, .phrase 0 [] 1 1] 1 true 1).spanFree = true := by
+  refine ⟨rfl, by decide +kernel, by decide +kernel, by decide +kernel, by decide +kernel, by decide +kernel,
+    by decide +kernel, by decide +kernel, by decide +kernel⟩
 
 end WM.C15
